@@ -17,6 +17,7 @@ EXPLANATION = ("Path-complete accounting over the built MIR of every item proces
                "tokio::time::timeout) through plain forwarding only -- no call site recomputes, rounds or clamps it, and the field is never rewritten.")
 EXPLANATION += ' R11.2 also requires every executor kind that is GIVEN an error callback to invoke it somewhere in its item processor (an unused callback is not even captured by the closure, so its absence is asked for at the level of the spawn function).'
 EXPLANATION += ' R11.4 also requires the zero / non-zero timeout dispatch to test the configured Duration itself (no unit-truncating view such as as_millis()).'
+EXPLANATION += " R11.5 also follows the concurrency limit across the Uni / Multi layers: every spawn_*executor* call is handed the caller's own limit, unchanged (captures resolved)."
 ASSUMPTIONS = ["tokio::time::timeout cancels the wrapped future and futures::StreamExt::for_each_concurrent bounds the in-flight futures (dependencies, trusted)",
                "Instruments::metrics() is the definition of 'metrics enabled'"]
 TRUSTED = ["tokio::time::timeout, futures::StreamExt::{for_each, for_each_concurrent}"]
